@@ -82,3 +82,38 @@ Definition C07_unaddressed_full : Prop :=
 Theorem C07_unaddressed_refuted : ~ C07_unaddressed_full.
 Proof. exact c07_unaddressed_full_refuted. Qed.
 Print Assumptions C07_unaddressed_refuted.
+
+(* ---- "... or is granted by per-author settings" (Model/AuthorOpts.v) ---------------------------------------------
+   The gate models take "the settings grant this bypass to the author" as an input.  That input is what the loader of
+   the `pr_author_options` section and PullRequestJob.author_bypass make of the section: for every list of bypass
+   names (pr_author_bypass_list is the live PrAuthorsOptions.BYPASS_LIST), every section with distinct users that the
+   loader accepts, every author and every name, the grant is in effect exactly when the name is listed under that
+   author; other authors' entries change nothing; and the loader refuses exactly the sections that list a name outside
+   BYPASS_LIST. *)
+Require Import BertE.Model.AuthorOpts BertE.Proofs.AuthorOptsProofs.
+
+Theorem C07_author_grants_exact : forall names cfg tb,
+  ao_load names cfg = Loaded tb -> NoDup (map fst cfg) ->
+  forall a k, ao_granted tb a k = true <-> exists l, In (a, l) cfg /\ In k l.
+Proof. exact load_exact. Qed.
+Print Assumptions C07_author_grants_exact.
+
+Theorem C07_author_grants_frame : forall names cfg cfg' tb tb' a,
+  ao_load names cfg = Loaded tb -> ao_load names cfg' = Loaded tb' ->
+  NoDup (map fst cfg) -> NoDup (map fst cfg') ->
+  (forall l, In (a, l) cfg <-> In (a, l) cfg') ->
+  forall k, ao_granted tb a k = ao_granted tb' a k.
+Proof. exact load_frame. Qed.
+Print Assumptions C07_author_grants_frame.
+
+Theorem C07_author_grants_refusal : forall names cfg,
+  (exists e, ao_load names cfg = LoadError e) <-> exists u l k, In (u, l) cfg /\ In k l /\ ~ In k names.
+Proof. exact load_error_iff. Qed.
+Print Assumptions C07_author_grants_refusal.
+
+Theorem C07_author_grants_example :
+  ao_outcome ["bypass_a"; "bypass_b"; "bypass_c"]
+             [("svc-bot", ["bypass_b"; "bypass_a"]); ("carol", ["bypass_c"])] ["svc-bot"; "carol"; "car"; "bot"]
+  = inr [["bypass_a"; "bypass_b"]; ["bypass_c"]; []; []].
+Proof. exact two_authors. Qed.
+Print Assumptions C07_author_grants_example.
